@@ -483,6 +483,25 @@ fn copy_case<const N: usize>(kind: u8, a: usize, b: usize) -> String {
     r.unwrap_or_else(|_| "PANIC".into())
 }
 
+/// a short list for the Miri run of C01
+pub fn miri_cases(out: &mut Out) {
+    for (a, b) in [(0usize, 0usize), (1, 1), (2, 0), (0, 3), (3, 1)] {
+        out.line("c11.copy", &format!("0 3 {} {}", a, b), &copy_case::<3>(0, a, b), "-", "miri");
+    }
+    for a in 0..=2usize {
+        out.line("c11.copy", &format!("1 2 {} 0", a), &copy_case::<2>(1, a, 0), "-", "miri");
+    }
+    for s in [vec![0u8, 0, 0], vec![0, 1], vec![0, 0, 4], vec![3]] {
+        let sc = show_script(&s);
+        let (i, d) = map_num::<3>(&s);
+        out.line("c11.map", &format!("3 {} 0", sc), &i, &d, "miri");
+        let i = map_led::<3>(&s);
+        out.line("c11.map", &format!("3 {} 1", sc), &i, "-", "miri");
+        let i = from_fn_led::<3>(&s);
+        out.line("c11.from_fn", &format!("3 {} 1", sc), &i, "-", "miri");
+    }
+}
+
 fn copies(cfg: &Cfg, out: &mut Out) {
     let maxn = if cfg.thorough { 5 } else { 4 };
     for n in 0..=maxn {
